@@ -15,10 +15,12 @@ import Spine.DiscoveryResolve
           csub|cbind P lEnt lFeat rEnt rFeat          (client-side bookkeeping of a local client feature)
           resolve P ENT* | ENT/FEAT*                  (addresses and resolution of peer P's tree, state unchanged)
     answer: `T tree | E events | S subs | B binds | CS csubs | CB cbinds`; unknown op: `bad-op`.
-    answer of `resolve`: `D dev | A addr@dev{id@dev,…};… | RE ent=entity,… | RF ent/feat=feature,…` — `D` what
+    answer of `resolve`: `D dev | A addr@dev{id@dev,…};… | RE ent=entity,… | RF ent/feat=feature,… | K peers` — `D` what
           `DeviceRemote.Address()` reports, `A` every reported entity / feature address with its device part
           (`Spine.Disc.Dev`; `?` for members with `whole=1`, whose device parts are not modelled), `RE` what `Entity()`
-          returns for each asked entity address (`findE`), `RF` what `FeatureByAddress()` returns (`resolveF`); `-` = nil.
+          returns for each asked entity address (`findE`), `RF` what `FeatureByAddress()` returns (`resolveF`); `-` = nil;
+          `K` the peers whose SKI the entity events of the last message carried (`.` = no event; the events of
+          `World.stepG c w p` are published for peer p).
           The device address a message of peer P announces is interned as P. -/
 open Spine.Disc
 
@@ -155,37 +157,40 @@ def parseKind (kind : String) : Option Kind :=
 /-- the device parts next to the world: per peer -/
 abbrev Devs := Nat → Dev
 
-def answerD (c : Cfg) (w : World) (ds : Devs) (ws : List String) : World × Devs × String :=
+def answerD (c : Cfg) (w : World) (ds : Devs) (lastK : String) (ws : List String) : World × Devs × String × String :=
   match ws with
   | "resolve" :: p :: rest =>
     match p.toNat? with
-    | none => (w, ds, "bad-op")
+    | none => (w, ds, lastK, "bad-op")
     | some p =>
       let qe := rest.takeWhile (· ≠ "|")
       let qf := ((rest.dropWhile (· ≠ "|")).drop 1).map parseEF
-      if !rest.contains "|" || qe.any (fun a => !okAddr a || a = "-") || qf.any (·.isNone) then (w, ds, "bad-op") else
-      (w, ds, showResolve (!c.wholeMessage) (w.trees p) (ds p) (qe.map parseAddr) (qf.filterMap id))
+      if !rest.contains "|" || qe.any (fun a => !okAddr a || a = "-") || qf.any (·.isNone) then (w, ds, lastK, "bad-op") else
+      (w, ds, lastK, showResolve (!c.wholeMessage) (w.trees p) (ds p) (qe.map parseAddr) (qf.filterMap id) ++ s!" | K {lastK}")
   | "msg" :: p :: kind :: rest =>
     let (w', out) := answer c w ws
-    if out = "bad-op" || c.wholeMessage then (w', ds, out) else
+    if out = "bad-op" then (w', ds, lastK, out) else
     match p.toNat?, parseKind kind, parseMsgG rest with
     | some p, some k, some m =>
+      -- the entity events of this message are published for peer `p`: they carry its SKI
+      let kk := if (w.stepG c p k m).2.isEmpty then "." else toString p
+      if c.wholeMessage then (w', ds, kk, out) else
       let d' := devStepG c k (some p) m (w.trees p) (ds p)
-      (w', (fun q => if q = p then d' else ds q), out)
-    | _, _, _ => (w', ds, out)       -- `replyx`: rejected as a whole before `UpdateDevice`
-  | _ => let (w', out) := answer c w ws; (w', ds, out)
+      (w', (fun q => if q = p then d' else ds q), kk, out)
+    | _, _, _ => (w', ds, ".", out)       -- `replyx`: rejected as a whole before `UpdateDevice`, no event
+  | _ => let (w', out) := answer c w ws; (w', ds, lastK, out)
 
-partial def loop (h : IO.FS.Stream) (c : Cfg) (w : World) (ds : Devs) : IO Unit := do
+partial def loop (h : IO.FS.Stream) (c : Cfg) (w : World) (ds : Devs) (lastK : String) : IO Unit := do
   let line ← h.getLine
   if line.isEmpty then return ()
   let ws := (line.trimAscii.toString.splitOn " ").filter (· ≠ "")
   match ws with
-  | ["reset"] => IO.println "ok"; (← IO.getStdout).flush; loop h c world0 (fun _ => {})
+  | ["reset"] => IO.println "ok"; (← IO.getStdout).flush; loop h c world0 (fun _ => {}) "."
   | _ =>
-    let (w', ds', out) := answerD c w ds ws
+    let (w', ds', k', out) := answerD c w ds lastK ws
     IO.println out
     (← IO.getStdout).flush
-    loop h c w' ds'
+    loop h c w' ds' k'
 
 def parseArgs : List String → Option Cfg
   | [] => some {}
@@ -206,4 +211,4 @@ def parseArgs : List String → Option Cfg
 def main (args : List String) : IO UInt32 := do
   match parseArgs args with
   | none => IO.eprintln s!"drv_disc: bad arguments {args}"; return 2
-  | some c => loop (← IO.getStdin) c world0 (fun _ => {}); return 0
+  | some c => loop (← IO.getStdin) c world0 (fun _ => {}) "."; return 0
